@@ -45,25 +45,66 @@ def build_harness(tags="verif"):
     """(Re)build the harness binary against /repo's current working tree."""
     os.makedirs(BUILD, exist_ok=True)
     env = go_env()
-    shutil.copyfile(os.path.join(REPO, "go.sum"), os.path.join(HARNESS, "go.sum"))
+    # several checks may be started at once in the same /verif: one build at a time (flock), and go.sum / go.mod are
+    # only ever replaced atomically and only when they differ - a concurrent `go build` must never see a half-written
+    # go.sum (it would try to reach sum.golang.org)
+    import fcntl
+    lockf = open(os.path.join(BUILD, "build.lock"), "w")
+    fcntl.flock(lockf, fcntl.LOCK_EX)
+    try:
+        return _build_harness_locked(tags, env)
+    finally:
+        fcntl.flock(lockf, fcntl.LOCK_UN)
+        lockf.close()
+
+
+def _replace_if_differs(path, data):
+    try:
+        if open(path, "rb").read() == data:
+            return
+    except OSError:
+        pass
+    tmp = path + ".tmp%d" % os.getpid()
+    with open(tmp, "wb") as f:
+        f.write(data)
+    os.replace(tmp, path)
+
+
+def _build_harness_locked(tags, env):
+    _replace_if_differs(os.path.join(HARNESS, "go.sum"), open(os.path.join(REPO, "go.sum"), "rb").read())
     # the harness module always builds against REPO's working tree (default /repo; VERIF_REPO points
     # development runs at a scratch worktree)
     gm = os.path.join(HARNESS, "go.mod")
     txt = open(gm).read()
     new = re.sub(r"replace github.com/conduitio/conduit => \S+", "replace github.com/conduitio/conduit => " + REPO, txt)
     if new != txt:
-        open(gm, "w").write(new)
+        _replace_if_differs(gm, new.encode())
     t0 = time.time()
-    cmd = [env["VERIF_GO"], "build", "-tags", tags, "-o", os.path.join(BUILD, "vharness"), "./cmd/vharness"]
+    final = os.path.join(BUILD, "vharness")
+    out_tmp = final + ".new%d" % os.getpid()
+    cmd = [env["VERIF_GO"], "build", "-tags", tags, "-o", out_tmp, "./cmd/vharness"]
     if os.environ.get("VERIF_COVER"):
         # development aid (tools/covmap.py): which code of /repo do the drivers actually reach?  The binary
         # writes coverage counters to $GOCOVERDIR at exit; never set by a registered command.
         cmd[2:2] = ["-cover", "-coverpkg=github.com/conduitio/conduit/pkg/...,verifharness/cmd/vharness"]
     p = subprocess.run(cmd, cwd=HARNESS, env=env, capture_output=True, text=True)
     if p.returncode != 0:
+        if os.path.exists(out_tmp):
+            os.remove(out_tmp)
         raise Infra("harness build failed:\n" + p.stdout + p.stderr)
+    # the binary another check of the same tree is running right now is left alone when nothing changed (builds are
+    # reproducible); otherwise it is replaced atomically
+    same = False
+    try:
+        same = os.path.getsize(final) == os.path.getsize(out_tmp) and open(final, "rb").read() == open(out_tmp, "rb").read()
+    except OSError:
+        pass
+    if same:
+        os.remove(out_tmp)
+    else:
+        os.replace(out_tmp, final)
     log("harness built in %.1fs" % (time.time() - t0))
-    return os.path.join(BUILD, "vharness")
+    return final
 
 
 _scratch = None
